@@ -1,6 +1,7 @@
 """C07 - canonical serialization (structural part)."""
 from __future__ import annotations
 
+import ast
 import json
 
 from sa.effects import Effects, all_events
@@ -138,6 +139,28 @@ def serializer_config(ctx, published=True):
         extra = [n for n, _v in dumps_call[3] if n not in WANT and n != "separators"]
         ctx.ob("R1", "dumps-config|no-other-keywords", site.loc(), "no other json.dumps keyword is given" if not extra else "unexpected json.dumps keywords: %s" % extra, not extra)
         ctx.floor("R1.keywords", 8 if published else 4)
+    # "a function of the value alone": no function the serializer runs is memoised.  functools
+    # caches look entries up by == and hash, under which 1, 1.0 and True (and tuples of them) are
+    # one key: the bytes returned for a value would depend on which equal value was seen first
+    from sa.callgraph import CallGraph
+    from sa.effects import DECORATOR_WHITELIST, decorators, repo_decorator_is_stateless
+
+    cone = set(CallGraph(eng.prog).cone(["common.canonserialize"]))
+    memo = []
+    for obj, txt, dotted in decorators(eng.prog, tuple(sorted({eng.prog.funcs[q].mod.short for q in cone if q in eng.prog.funcs}))):
+        if getattr(obj, "qualname", None) not in cone or txt in DECORATOR_WHITELIST or (dotted or "") in DECORATOR_WHITELIST:
+            continue
+        stateless = False
+        for dnode in obj.node.decorator_list:
+            tnode = dnode.func if isinstance(dnode, ast.Call) else dnode
+            if ast.unparse(tnode) == txt:
+                res = repo_decorator_is_stateless(eng.prog, obj.mod, dnode)
+                stateless = res is not None and res[0]
+        if not stateless:
+            memo.append((obj, txt))
+    for obj, txt in memo:
+        ctx.ob("R1", "serializer-memoised|%s|%s" % (obj.qualname, txt), eng.prog.site(obj.mod, obj.node, obj.qualname).loc(), "%s, which canonserialize runs, is wrapped by @%s: a cache keyed by ==/hash serves 1, 1.0 and True (and tuples of them) from one entry, so the canonical bytes of a value depend on the calls made before and distinct values share bytes" % (obj.qualname, txt), False)
+    ctx.ob("R1", "serializer-not-memoised", site.loc(), "%d function(s) reachable from canonserialize, %s" % (len(cone), "none of them behind a caching decorator" if not memo else "%d behind a caching decorator" % len(memo)), not memo)
     return sm, site
 
 
